@@ -206,6 +206,68 @@ pub fn run(ctx: &mut Ctx) {
             }
         }
     }
+    // operands that are themselves operand lists: an array literal whose length is a documented count of
+    // the operator, standing where ONE operand stands, is one operand (a literal array), never the list
+    for k in OPS {
+        if !ctx.mine() {
+            continue;
+        }
+        for m in 0..=4usize {
+            let inner = Value::Array(benign(k, m));
+            for n in 1..=3usize {
+                let accepted = refmodel::arity_ok(k, n);
+                for pos in 0..n {
+                    ctx.edge();
+                    let mut args = if accepted { benign(k, n) } else { vec![json!(1); n] };
+                    args[pos] = inner.clone();
+                    let r = op(k, args);
+                    let o = ctx.exec(&r, &ds[1]);
+                    ctx.record(if accepted { "accept:operand-list-as-operand" } else { "reject:operand-list-as-operand" }, &r, &ds[1], &o, verdict(accepted, false, &o));
+                    if !accepted && n == 1 {
+                        for r2 in [json!({"cat": ["x", r]}), json!({"if": [true, r, 0]})] {
+                            let o2 = ctx.exec(&r2, &ds[1]);
+                            ctx.record("reject:operand-list-as-operand:nested", &r2, &ds[1], &o2, verdict(false, false, &o2));
+                        }
+                    }
+                }
+            }
+        }
+    }
+    // nesting depth: one-operand operations nested d deep (every d, beyond the 128 levels a JSON text may
+    // have: rules are also built by programs), innermost operand a scalar; the two spellings of the
+    // outermost operation agree whatever the spelling of the levels below, and a limit on nesting (if any)
+    // treats both spellings alike
+    {
+        let unary: Vec<&str> = OPS.iter().copied().filter(|k| refmodel::arity_ok(k, 1) && !["var", "missing", "log"].contains(k)).collect();
+        let maxd = if ctx.profile.starts_with("dev") { 60 } else if ctx.tier_thorough { 300 } else { 160 };
+        for depth in 1..=maxd {
+            if !ctx.mine() {
+                continue;
+            }
+            for (inner_k, leaf, mixed) in [("!!", json!(true), false), ("+", json!("2"), false), ("cat", json!("a"), false), ("or", json!(0), false), ("merge", json!(1), false), ("!", json!(1), true)] {
+                for bare_below in [true, false] {
+                    let mut x = leaf.clone();
+                    for lvl in 0..depth - 1 {
+                        let k = if mixed && lvl % 5 == 4 { unary[(lvl / 5) % unary.len()] } else { inner_k };
+                        x = if bare_below { al::obj1(k, x) } else { op(k, vec![x]) };
+                    }
+                    for k in &unary {
+                        ctx.edge();
+                        let r1 = al::obj1(k, x.clone());
+                        let r2 = op(k, vec![x.clone()]);
+                        let (o1, o2) = (ctx.exec(&r1, &ds[0]), ctx.exec(&r2, &ds[0]));
+                        let same = match (o1.ok(), o2.ok()) {
+                            (Some(a), Some(b)) => a == b,
+                            (None, None) => o1.is_err() && o2.is_err(),
+                            _ => false,
+                        };
+                        ctx.record("sugar:nesting-depth:bracketed", &r2, &ds[0], &o2, None);
+                        ctx.record("sugar:nesting-depth:bare", &r1, &ds[0], &o1, if same { None } else { Some((format!("same as bracketed: {}", o2.show()), o1.show())) });
+                    }
+                }
+            }
+        }
+    }
     // the bracket-less spelling for the data operators over path keys in every lexer state (escapes without
     // dots, trailing / leading separators, doubled separators): {"var": k} is exactly {"var": [k]}
     if ctx.mine() {
@@ -228,4 +290,5 @@ pub fn run(ctx: &mut Ctx) {
             }
         }
     }
+    crate::spaces::sweep::length_sweep(ctx);
 }
